@@ -342,6 +342,26 @@ theorem C07_loaded_macro_not_resavable :
     (match loadHaunted Cfg.pinned none (leaf 1 1 [chn 0 (v 5)] [chn 0 .nd]) with | .error e => some e | .ok _ => none) = none := by
   decide
 
+/-- W8 — a workflow holding macro `m` (input 0 value-linked to its child) and a plain node; after
+`replace_child` of the plain node the workflow carries the view `[m.0, n.0]` of its exposed inputs -/
+def w8 : Node :=
+  .mk (core0 0 100 .workflow [] [])
+    [.mk { core0 1 50 .macro [chn 0 (v 5), chn 1 (v 6)] [chn 0 .nd] with
+             inLinks := [(0, (1, 0)), (1, (1, 1))], outLinks := [((1, 0), 0)] }
+       [leaf 1 1 [chn 0 (v 5), chn 1 (v 6)] [chn 0 .nd]] noC noC,
+     leaf 2 2 [chn 0 (v 1)] [chn 0 .nd]] noC noC
+
+/-- KF-C07-8: the round trip of a workflow that carries the view drops the value link of the first
+exposed input of every macro child (here link 0 of `m`; link 1 survives), for every restore variant;
+without the view (it is derived data and need not be stored) the same graph round-trips -/
+theorem C07_cached_io_view_drops_link :
+    (match loadViewed Cfg.repaired [(1, 0), (1, 1), (2, 0)] w8 with
+     | .ok g => some (obs [] g) | .error _ => none) ≠ some (obs [] w8) ∧
+    (match loadViewed Cfg.repaired [(1, 0), (1, 1), (2, 0)] w8 with
+     | .ok g => some (g.children.map fun c => c.core.inLinks) | .error _ => none) = some [[(1, (1, 1))], []] ∧
+    (match loadViewed Cfg.repaired [] w8 with
+     | .ok g => some (obs [] g) | .error _ => none) = some (obs [] w8) := by decide
+
 /-- non-vacuity of the partial statement on the pinned code: a nested graph (workflow ⊃ macro with
 value links ⊃ leaves) in a partly run, partly failed state with `NOT_DATA`, executor instructions
 and single connections satisfies its hypotheses and round-trips through both back ends -/
@@ -434,3 +454,4 @@ end PwVerif.C07
 #print axioms PwVerif.C07.C07_composite_cache_forgotten
 #print axioms PwVerif.C07.C07_foreign_connection_dropped
 #print axioms PwVerif.C07.C07_loaded_macro_not_resavable
+#print axioms PwVerif.C07.C07_cached_io_view_drops_link
